@@ -31,6 +31,8 @@ def step (d : Dir) (line : String) : Dir × String :=
   | ["state", "empty"] => (.dir false [], "ok")
   | ["state", "file"] => (.file, "ok")
   | ["state", "foreign"] => (.dir true [], "ok")
+  | ["partial", k, net, traces] =>
+    (.dir true (((rowsOf (cfgOf net traces)).filter (fun p => p.1 ≠ k)).foldl (fun m p => m.insert p.1 p.2) []), "ok")
   | [op, net, traces] =>
     if op = "validate" || op = "start" then
       match validate d (cfgOf net traces) with
